@@ -356,20 +356,6 @@ def resolve(by_id, cid, depth=0):
     return base
 
 
-def void_mat_cells(deck):
-    '''LIKE cells made void by BUT MAT=0 while a density is inherited (the
-    like_but_mat_void shape).'''
-    by_id = {c['id']: c for c in deck['cells']}
-    out = []
-    for c in deck['cells']:
-        if c.get('like') is None:
-            continue
-        r = resolve(by_id, c['id'])
-        if r['mat'] == 0 and r.get('rho') is not None:
-            out.append(c['id'])
-    return out
-
-
 def expand(deck):
     '''The deck with every LIKE card replaced by its explicit expansion.'''
     by_id = {c['id']: c for c in deck['cells']}
